@@ -202,6 +202,32 @@ Proof.
   - rewrite IHP1. apply IHP2.
 Qed.
 
+(* arg-max of a measure that is injective on the matching entries *)
+Lemma argmax_step_comm {A} (p : A -> bool) (m : A -> N) (x y : A) :
+  (p x = true -> p y = true -> m x <> m y) ->
+  forall b, argmax_step p m (argmax_step p m b x) y = argmax_step p m (argmax_step p m b y) x.
+Proof.
+  intros H b. unfold argmax_step.
+  destruct (p x) eqn:Px, (p y) eqn:Py; try reflexivity.
+  specialize (H eq_refl eq_refl).
+  destruct b as [b|].
+  - destruct (N.ltb_spec (m b) (m x)), (N.ltb_spec (m b) (m y));
+      repeat match goal with |- context [?a <? ?c] => destruct (N.ltb_spec a c) end;
+      try reflexivity; exfalso; lia.
+  - destruct (N.ltb_spec (m x) (m y)), (N.ltb_spec (m y) (m x)); try reflexivity; exfalso; lia.
+Qed.
+
+Theorem argmax_perm {A} (p : A -> bool) (m : A -> N) (l l' : list A) :
+  NoDup l ->
+  (forall x y, In x l -> In y l -> p x = true -> p y = true -> m x = m y -> x = y) ->
+  Permutation l l' -> range_argmax p m l = range_argmax p m l'.
+Proof.
+  intros ND Inj P. unfold range_argmax.
+  apply (fold_commutative_perm_on (argmax_step p m) l l' ND); [|exact P].
+  intros x y Hx Hy Hne b. apply argmax_step_comm.
+  intros Px Py E. apply Hne. apply Inj; assumption.
+Qed.
+
 (* ------------------------------------------------------------------ *)
 (* existence tests, lookups, set insertion, map copy                    *)
 
